@@ -32,11 +32,11 @@ type JKV struct {
 	V J      `json:"v"`
 }
 
-func JNull() J          { return J{K: "null"} }
-func JStr(s string) J   { return J{K: "str", S: s} }
-func JInt(n int64) J    { return J{K: "int", N: fmt.Sprint(n)} }
-func JObj(kv ...JKV) J  { return J{K: "obj", O: kv} }
-func JArr(items ...J) J { return J{K: "arr", A: items} }
+func JNull() J             { return J{K: "null"} }
+func JStr(s string) J      { return J{K: "str", S: s} }
+func JInt(n int64) J       { return J{K: "int", N: fmt.Sprint(n)} }
+func JObj(kv ...JKV) J     { return J{K: "obj", O: kv} }
+func JArr(items ...J) J    { return J{K: "arr", A: items} }
 func KV(k string, v J) JKV { return JKV{k, v} }
 
 func parseJ(b []byte) (J, error) {
